@@ -11,13 +11,18 @@ import (
 	"flag"
 	"fmt"
 	"go/ast"
-	"go/parser"
 	"go/token"
 	"os"
+	"path/filepath"
 	"regexp/syntax"
 	"strconv"
 	"strings"
+
+	"gtverif/internal/srcset"
 )
+
+// name of the variable holding the compiled pattern (set by findPattern)
+var matcherName string
 
 func fail(format string, a ...any) {
 	fmt.Fprintf(os.Stderr, "xlate_tmplre: "+format+"\n", a...)
@@ -25,12 +30,54 @@ func fail(format string, a ...any) {
 }
 
 // findPattern returns the literal of `var envVarTmplMatcher = regexp.MustCompile(<lit>)`.
+// The variable is looked for in every file of the package that takes part in the build (build
+// constraints honoured, harness/internal/srcset); it is an error if another function of the package
+// — an init() in a sibling file included — assigns to it or takes its address, or if the file that
+// declares it imports something else under the name `regexp`.
 func findPattern(path, varName string) string {
-	fset := token.NewFileSet()
-	f, err := parser.ParseFile(fset, path, nil, 0)
+	dir := path
+	if strings.HasSuffix(path, ".go") {
+		dir = filepath.Dir(path)
+	}
+	pkg, err := srcset.Load(dir, "verif")
 	if err != nil {
 		fail("%v", err)
 	}
+	f := &ast.File{Name: ast.NewIdent("gconfig")}
+	for _, pf := range pkg.Files {
+		f.Decls = append(f.Decls, pf.Decls...)
+	}
+	declFile := map[string]*ast.File{}
+	for _, pf := range pkg.Files {
+		for _, d := range pf.Decls {
+			if gd, ok := d.(*ast.GenDecl); ok {
+				for _, sp := range gd.Specs {
+					if vs, ok := sp.(*ast.ValueSpec); ok {
+						for _, nm := range vs.Names {
+							declFile[nm.Name] = pf
+						}
+					}
+				}
+			}
+		}
+	}
+	defer func() {
+		if matcherName == "" {
+			return
+		}
+		if w := pkg.WritesTo(matcherName); len(w) > 0 {
+			fail("the compiled pattern %s is assigned to (or has its address taken) in %s", matcherName, strings.Join(w, ", "))
+		}
+		for _, im := range declFile[matcherName].Imports {
+			name := ""
+			if im.Name != nil {
+				name = im.Name.Name
+			}
+			if pth, _ := strconv.Unquote(im.Path.Value); (name == "regexp" || (name == "" && strings.HasSuffix(pth, "/regexp"))) && pth != "regexp" {
+				fail("`regexp` is not the standard library's regexp in the file declaring %s (%s)", matcherName, pth)
+			}
+		}
+	}()
 	found := ""
 	ast.Inspect(f, func(n ast.Node) bool {
 		vs, ok := n.(*ast.ValueSpec)
@@ -56,6 +103,7 @@ func findPattern(path, varName string) string {
 			if found != "" {
 				fail("several variables are initialised by regexp.MustCompile; name one with -var")
 			}
+			matcherName = nm.Name
 			lit, ok := call.Args[0].(*ast.BasicLit)
 			if !ok || lit.Kind != token.STRING {
 				fail("the pattern of %s is not a string literal", varName)
